@@ -56,6 +56,12 @@ Flow2EmptyCfgs ==
   {[Base EXCEPT !.nodes = <<Leaf(TRUE, FALSE, 1), Func(FALSE, 1, <<"r", "a", "r">>), FlowNode(1)>>, !.top = 3,
                 !.conns = <<ConnSeq(3, Pairs2, tg)>>, !.acts = {0, 1, 2}, !.outs = {"ok"}] :
       tg \in {t \in [1..4 -> Targets2] : t[2] = -1 /\ t[4] \in {-1, 0}}}
+\* connections on the empty action are table entries of their own (no run follows them: "" is reported as the default
+\* action), next to connections on the default action
+EmptyConnCfgs ==
+  {[Base EXCEPT !.nodes = <<Leaf(TRUE, FALSE, 1), Leaf(FALSE, FALSE, 1), FlowNode(1)>>, !.top = 3,
+                !.conns = <<ConnSeq(3, << <<1, 1>>, <<1, 0>>, <<1, 1>>, <<2, 0>> >>, tg)>>, !.acts = {0, 1}, !.outs = {"ok"}] :
+      tg \in [1..4 -> {-1, 0, 1, 2}]}
 \* errors anywhere on the path (C04): budgets and fallbacks on the path
 FlowErrCfgs ==
   {[Base EXCEPT !.nodes = <<Leaf(TRUE, TRUE, 2), Leaf(FALSE, FALSE, 1), FlowNode(1)>>, !.top = 3,
@@ -147,6 +153,7 @@ Cfgs == CASE Family = "single"       -> SingleCfgs
           [] Family = "flowretry"    -> FlowRetryCfgs
           [] Family = "zerobudget"   -> ZeroBudgetCfgs
           [] Family = "dynwire"      -> DynWireCfgs
+          [] Family = "emptyconn"    -> EmptyConnCfgs
 
 MCInit == \E c \in Cfgs : InitWith(c)
 MCSpec == MCInit /\ [][Next]_vars
